@@ -20,6 +20,7 @@ import (
 	"go/parser"
 	"go/printer"
 	"go/token"
+	"go/types"
 	"os"
 	"path/filepath"
 	"regexp"
@@ -860,9 +861,7 @@ func (g *genFile) src(p *pkg, names ...string) {
 	for _, name := range names {
 		fd := p.method(name)
 		pinnedFns[fd] = true
-		fd2 := *fd
-		fd2.Doc = nil
-		txt := normWS(stripComments(p.src(&fd2)))
+		txt := p.funcText(fd)
 		lname := "src_" + filepath.Base(p.dir) + "_" + strings.ReplaceAll(name, ".", "_")
 		fmt.Fprintf(&g.b, "def %s : String := %s\n", lname, leanString(txt))
 		expect = append(expect, [2]string{g.name + "." + lname, leanString(txt)})
@@ -870,6 +869,57 @@ func (g *genFile) src(p *pkg, names ...string) {
 }
 
 var expect [][2]string
+
+// funcText is the normalised text of a function that the source pins compare: comments stripped, white space collapsed,
+// and the function's LOCAL names — receiver, parameters, named results, local variables, labels — replaced by _l1, _l2, …
+// in order of first occurrence (by go/types object, so shadowing and closures are handled), so that a consistent renaming
+// of locals, which cannot change the meaning, does not change the text.  Package-level names, fields, methods and
+// imported names are left as they are.
+func (p *pkg) funcText(fd *ast.FuncDecl) string {
+	tp := typeCheck(p)
+	names := map[types.Object]string{}
+	var touched []*ast.Ident
+	var old []string
+	local := func(o types.Object) bool {
+		if o == nil || o.Pkg() != tp.tpkg {
+			return false
+		}
+		switch v := o.(type) {
+		case *types.Var:
+			return !v.IsField() && o.Parent() != tp.tpkg.Scope()
+		case *types.Label:
+			return true
+		}
+		return false
+	}
+	ast.Inspect(fd, func(n ast.Node) bool {
+		id, ok := n.(*ast.Ident)
+		if !ok || id.Name == "_" {
+			return true
+		}
+		o := tp.info.Defs[id]
+		if o == nil {
+			o = tp.info.Uses[id]
+		}
+		if !local(o) {
+			return true
+		}
+		if _, seen := names[o]; !seen {
+			names[o] = fmt.Sprintf("_l%d", len(names)+1)
+		}
+		touched = append(touched, id)
+		old = append(old, id.Name)
+		id.Name = names[o]
+		return true
+	})
+	fd2 := *fd
+	fd2.Doc = nil
+	txt := normWS(stripComments(p.src(&fd2)))
+	for i, id := range touched {
+		id.Name = old[i]
+	}
+	return txt
+}
 
 // functions already recorded one by one through src
 var pinnedFns = map[*ast.FuncDecl]bool{}
@@ -890,9 +940,7 @@ func (g *genFile) rest(p *pkg, label string) {
 				if pinnedFns[fd] {
 					continue
 				}
-				fd2 := *fd
-				fd2.Doc = nil
-				parts = append(parts, normWS(stripComments(p.src(&fd2))))
+				parts = append(parts, p.funcText(fd))
 				continue
 			}
 			t := normWS(stripComments(p.src(d)))
